@@ -44,13 +44,17 @@ static bool g_loadbuf_ok[N + 1];
 static SerBuf g_savebuf;
 #endif
 
-struct OpResult { uint8_t ret; uint8_t aux; uint8_t copyEqual; uint8_t saveOk; };
+struct OpResult { uint8_t ret; uint8_t aux; uint8_t copyEqual; uint8_t saveOk; uint8_t heldViewStale; };
 
 // Executes one API call on the instance in slot `slot` (G.cur). The caller has already prepared the driver.
 inline OpResult apply(const Op& op, int slot) {
 	OpResult r{0, 0, 1, 1};
 	Inst& m = *inst(slot);
 	G.cur = &m; G.event = nullptr;
+#if VX_PLANS
+	// a read-only plan view obtained before the call keeps showing the machine's plan, not a snapshot of it (checked after the call)
+	const Inst& cm0 = m; auto heldView = cm0.plan();
+#endif
 	g_alloc.in_lib = 1;
 	switch (op.k) {
 	case OP_UPDATE: m.update(); break;
@@ -129,6 +133,15 @@ inline OpResult apply(const Op& op, int slot) {
 	}
 	g_alloc.in_lib = 0;
 	if (op.k != OP_DESTROY) poison_vacant(m);
+#if VX_PLANS
+	if (op.k != OP_DESTROY) {
+		auto fresh = cm0.plan(); bool same = static_cast<bool>(heldView) == static_cast<bool>(fresh);
+		auto a = heldView.begin(); auto b = fresh.begin(); int guard = 0;
+		while (same && static_cast<bool>(a) && static_cast<bool>(b) && guard++ < MAXPLAN + 2) { if (!(rd_task(*a) == rd_task(*b))) same = false; ++a; ++b; }
+		if (same && (static_cast<bool>(a) != static_cast<bool>(b))) same = false;
+		r.heldViewStale = same ? 0 : 1;
+	}
+#endif
 	return r;
 }
 
